@@ -251,6 +251,11 @@ def compare(ctx, cases):
         elif c['kind'] == 'cleave' and isinstance(a, list) and any(q not in c['seq'] for q in a):
             bad.append((c, 'product not a substring: %s' % [q for q in a if q not in c['seq']][:3],
                         'theorem digest_products_are_substrings_within_limits'))
+        elif c['kind'] == 'pool' and isinstance(a, list):
+            texts = [pr[0] for pr in c['prots']] + [pr[0].replace('I', 'L') for pr in c['prots']]
+            stray = [q for q in a if '*' in q or not any(q in t for t in texts)]
+            if stray:
+                bad.append((c, 'pool member from no protein: %s' % stray[:3], 'theorem pool_members_are_protein_substrings'))
     return impl, model, bad
 
 def run(ctx):
